@@ -1,15 +1,17 @@
 #!/bin/sh
 # tools/seed_check.sh <PROP> <mK> [check-ids...] : run checks against a scratch worktree with the seeded patch applied
-# (VERIF_REPO points the checks at that tree; evidence/replays go to /tmp/out_<P>/<mK>/verif, never to /verif/evidence).
+# (VERIF_REPO points the checks at that tree; evidence/replays go to <dir>/verif, never to /verif/evidence).
+# The patch is taken from /tmp/out_<P>/<mK>/patch.diff if present, else from /verif/seeded/<P>-<mK>/patch.diff.
 P=$1; M=$2; shift 2; CHECKS=${@:-$P}
 EV=/tmp/ev_${P}_$M
+SRC=/tmp/out_$P/$M; [ -f $SRC/patch.diff ] || { SRC=/tmp/reseed_${P}_$M; mkdir -p $SRC; cp /verif/seeded/$P-$M/patch.diff $SRC/; }
 cd /verif
 git -C /repo worktree remove --force $EV >/dev/null 2>&1
 git -C /repo worktree add -q --detach $EV HEAD || exit 3
-git -C $EV apply /tmp/out_$P/$M/patch.diff || { echo "patch does not apply"; git -C /repo worktree remove --force $EV; exit 3; }
-mkdir -p /tmp/out_$P/$M/verif
+git -C $EV apply $SRC/patch.diff || { echo "$P $M patch does not apply"; git -C /repo worktree remove --force $EV; exit 3; }
+mkdir -p $SRC/verif
 for c in $CHECKS; do
-  VERIF_REPO=$EV VERIF_OUT=/tmp/out_$P/$M/verif ./check $c --tier quick > /tmp/out_$P/$M/check_$c.log 2>&1; rc=$?
-  echo "$P $M check $c rc=$rc viol=$(grep -c '^VIOLATION' /tmp/out_$P/$M/check_$c.log): $(grep '^VIOLATION\|^INCONCLUSIVE\|^OK\|^KNOWN' /tmp/out_$P/$M/check_$c.log | head -3 | cut -c1-170 | tr '\n' '|')"
+  VERIF_REPO=$EV VERIF_OUT=$SRC/verif ./check $c --tier quick > $SRC/check_$c.log 2>&1; rc=$?
+  echo "$P $M check $c rc=$rc viol=$(grep -c '^VIOLATION' $SRC/check_$c.log): $(grep '^VIOLATION\|^INCONCLUSIVE\|^OK\|^KNOWN' $SRC/check_$c.log | head -3 | cut -c1-170 | tr '\n' '|')"
 done
 git -C /repo worktree remove --force $EV
